@@ -109,3 +109,23 @@ def run(ctx):
     ex = next((r for r in batch if any(pl["seq"] == "VALID" for pl in r["plans"])), batch[0])
     ctx.sample({"problem": ex["P"], "plans": [pl for pl in ex["plans"] if pl["seq"] == "VALID"][:2] + ex["plans"][:1]})
     ctx.assumptions += ["TLC, Json reader, harness/upj.py trusted; unspecified zones skipped and counted"]
+
+
+def replay(ctx, rec):
+    from unified_planning.engines.plan_validator import SequentialPlanValidator, TimeTriggeredPlanValidator
+
+    P, pl = rec["data"]["problem"], rec["data"]["plan"]
+    problem = upj.build(P)
+    r = {"steps": pl["steps"], "tt": "", "seq": "", "tt_reason": "", "seq_reason": ""}
+    r["tt"], r["tt_reason"], _ = timeobs.validate(TimeTriggeredPlanValidator, problem, timeobs.build_tt_plan(problem, pl["steps"]))
+    if "C04" == "C04":
+        steps = sorted(pl["steps"], key=lambda s: timeobs.frac(s["t"]))
+        r["seq"], r["seq_reason"], _ = timeobs.validate(SequentialPlanValidator, problem, timeobs.build_seq_plan(problem, steps))
+    batch = [{"pid": 1, "P": P, "keys": upj.keys_of(P), "plans": [r]}]
+    res, _ = judge(ctx, batch, "C04")
+    fails = [p for p in res.printed if p and p[0] == "FAIL"]
+    for f in fails:
+        print("REPRODUCED property=C04 clause=%s" % f[3])
+    if not fails:
+        print("replay: no violation on the current tree (tt %s)" % r["tt"])
+    return 1 if fails else 0
